@@ -273,6 +273,14 @@ def run(ctx, R, tier):
         R.check(ok, "C17-R5", "SocketConnection.%s|delegates-exactly" % mname, "the connection wrapper passes the socket and the size/data through unchanged", m_.loc(),
                 "SocketConnection.%s does not hand exactly its argument to %s (or alters the result)" % (mname, target.rsplit(".", 1)[1]))
 
+    # a timeout must surface as socket.timeout (which both loops turn into TimeoutError): it is set with settimeout(), never as a kernel option - an expired
+    # SO_RCVTIMEO / SO_SNDTIMEO shows up as EAGAIN, which is in ERRNO_RETRIES and is retried for ever
+    kernel_to = [(g, c) for g in p.functions.values() if not isinstance(g.node, ast.Lambda) for c in walk_no_nested(g.node)
+                 if isinstance(c, ast.Call) and isinstance(c.func, ast.Attribute) and c.func.attr == "setsockopt" and any("SO_RCVTIMEO" in unparse(a) or "SO_SNDTIMEO" in unparse(a) for a in c.args)]
+    R.check(not kernel_to, "C17-R2", "timeouts|set-with-settimeout", "socket timeouts are set with settimeout() only (no SO_RCVTIMEO / SO_SNDTIMEO)", kernel_to[0][0].loc(kernel_to[0][1]) if kernel_to else "Pyro5/",
+            "`%s` in %s: a kernel receive/send timeout surfaces from recv()/send() as EAGAIN, which receive_data/send_data treat as retryable - a peer that stalls in mid-message is "
+            "waited for indefinitely instead of raising TimeoutError" % (unparse(kernel_to[0][1], 70), kernel_to[0][0].qualname) if kernel_to else "")
+
     # ---------------------------------------------------------------- R4
     m = p.module("Pyro5.socketutil")
     names = set()
